@@ -114,7 +114,10 @@ class Encoded(Literal):
                 continue
             if isinstance(x, Object):
                 md = x.__metadata__
-                md.sxtype = ref
+                # Keep the type of an item that already has one, e.g. a
+                # factory built object of a type derived from the item type.
+                if getattr(md, "sxtype", None) is None:
+                    md.sxtype = ref
                 array.item.append(x)
                 continue
             if isinstance(x, dict):
